@@ -24,7 +24,7 @@ func checkC13(c *Check) {
 	if len(entries) < 2 {
 		return
 	}
-	runGenEngines(c, genOpts{entries: entries, order: true, guard: true, deref: true, rec: true})
+	runGenEngines(c, genOpts{entries: entries, order: true, guard: true, deref: true, rec: true, modelRO: true})
 	vis := methodsOfType(p, "pkg/cmdutils", "SequenceDiagramVisitor")
 	if len(vis) < 10 {
 		c.Undecidedf("ANCHOR", "SequenceDiagramVisitor", "-", "visitor methods not found")
@@ -227,6 +227,9 @@ func checkC13(c *Check) {
 			c.Undecidedf("BLOCK-CLOSE", "openers", "-", "expected ≥2 functions that open blocks, found %d", n)
 		}
 	}
+	// an error of a nested visit ends the diagram with that error: it is returned,
+	// not logged and skipped with what was drawn so far left in the output
+	c.Counts["visitor_error_calls"] = errFlow(c, "ERR-FLOW", vis, true)
 	// statement kinds
 	runStmtKinds(c, "STMT-KINDS", "sequence visitor", vis)
 	// participants: head written from a sorted slice (the MAP-ORDER rule covers the loop; here: WriteHead only in one function)
@@ -274,7 +277,7 @@ func checkC14(c *Check) {
 	if len(entries) < 1 {
 		return
 	}
-	runGenEngines(c, genOpts{entries: entries, order: true, guard: true, deref: true, rec: true})
+	runGenEngines(c, genOpts{entries: entries, order: true, guard: true, deref: true, rec: true, modelRO: true})
 	var pc []*ssa.Function
 	if f := p.FuncByName("pkg/integrationdiagram.ProcessCalls"); f != nil {
 		pc = withClosures(f)
